@@ -2,8 +2,9 @@
 Lemmas/RenameLayout.lean — C18-R2 (renaming), part 4: the stages after `translate` — the PCR size loop, the ORG check,
 address assignment, `fix_addresses`, the evaluation of EQU expressions and the final symbol table — commute with the
 renaming of statements `rnStmt` (they read sizes, statement indices and addresses, never a name). Batch 8: the evaluation
-of the FCB / FDB lists (`evalLists`, inside `fixAllL`) reads element TEXTS; it commutes for lists of literals
-(`evalLists_rn`, `fixAllL_rn`), hence the hypothesis `ListsOK` of `back_rn`.
+of the FCB / FDB lists (`evalLists`, inside `fixAllL`) reads element TEXTS; it commutes when the element texts of the renamed operand text are
+faithful renamings of the element texts (`ElemRn`, `evalElem_rn`, `evalLists_rn`, `fixAllL_rn`), hence the hypothesis
+`ListsOK` of `back_rn`.
 -/
 import CoCoVerif.Lemmas.RenameTranslate
 import CoCoVerif.Lemmas.LayoutSym
@@ -423,12 +424,16 @@ theorem fixAll_rn (ss : List Stmt) : ∀ (l : List Stmt) (i : Nat),
 /-! ### the FCB / FDB lists (batch 8: `evalLists` after `fixAll`)
 
 `evalLists` reads, for a statement whose operand field is a byte / word list, the element TEXTS of the operand text that
-are symbols or expressions (`pendingAt`) and evaluates them against the label table. The renaming `rnStmt` does not
-rename inside operand texts, so the pass commutes with it for the lists that have no such element (`litElems`) and
-whose text `ρ.txt` leaves alone. -/
+are symbols or expressions (`pendingAt`) and evaluates them against the label table. The renaming `rnStmt` maps the
+operand text by `ρ.txt`; the pass commutes with it when the elements of the renamed text are, one by one, faithful
+renamings of the elements of the text (`ElemRn`): an element that is evaluated is still evaluated, `create` of the new
+text is the renamed `create` of the old one, and its symbols are inside the injectivity domain `N` of `ρ`. -/
 
 /-- the value is a byte / word list -/
 def isList (v : Value) : Bool := v.isMultiByte || v.isMultiWord
+
+/-- the element is evaluated by `evalLists` at the width of an FCB or at the width of an FDB -/
+def pendingAny (x : Str) : Bool := pendingAt 2 x || pendingAt 4 x
 
 /-- no element of the list operand text `txt` is a symbol or an expression that `evalLists` would evaluate (neither at
 the width of an FCB nor at the width of an FDB): the list is a list of literals -/
@@ -442,6 +447,18 @@ theorem litElems_at {txt : Str} (h : litElems txt = true) {w : Nat} (hw : w = 2 
   rcases hw with rfl | rfl
   · exact this.1
   · exact this.2
+
+theorem litElems_any {txt : Str} (h : litElems txt = true) : ∀ x ∈ listElems txt, pendingAny x = false := by
+  intro x hx
+  unfold pendingAny
+  rw [litElems_at h (.inl rfl) x hx, litElems_at h (.inr rfl) x hx]; rfl
+
+theorem pendingAny_false {x : Str} (h : pendingAny x = false) {w : Nat} (hw : w = 2 ∨ w = 4) : pendingAt w x = false := by
+  unfold pendingAny at h
+  simp only [Bool.or_eq_false_iff] at h
+  rcases hw with rfl | rfl
+  · exact h.1
+  · exact h.2
 
 /-- literal elements keep their digits whatever the program and the table are -/
 theorem evalElems_lit (ss ss' : List Stmt) (t t' : SymTab) (w : Nat) : ∀ (xs hs : List Str),
@@ -459,8 +476,108 @@ theorem evalElems_lit (ss ss' : List Stmt) (t t' : SymTab) (w : Nat) : ∀ (xs h
         intro a b; unfold evalElem1; rw [hp x (by simp)]; rfl
       rw [e, e]
 
-theorem evalList1_rn (t : SymTab) (ss : List Stmt) (s : Stmt)
-    (h : isList s.pkg.additional = true → litElems s.operand.text = true ∧ ρ.txt s.operand.text = s.operand.text) :
+/-- `x'` is a faithful renaming of the list element text `x` at the width `w`: it is evaluated by the list pass iff `x`
+is, and then `create` of `x'` is the renamed `create` of `x` and the symbols of `x` are in `N` -/
+def ElemRn (ρ : Ren) (N : List Str) (w : Nat) (x x' : Str) : Prop :=
+  pendingAt w x' = pendingAt w x ∧
+  (pendingAt w x = true →
+    create 4 x' false false true = (create 4 x false false true).map (rnValue ρ) ∧
+    ∀ v, create 4 x false false true = .ok v → ∀ y ∈ valSyms v, y ∈ N)
+
+theorem elemRn_refl (N : List Str) {w : Nat} {x : Str} (h : pendingAt w x = false) : ElemRn ρ N w x x :=
+  ⟨rfl, fun h' => by rw [h] at h'; cases h'⟩
+
+theorem elemNum_rn (ss : List Stmt) (r : Value) :
+    elemNum (ss.map (rnStmt ρ)) (rnValue ρ r) = (elemNum ss r).map (rnValue ρ) := by
+  unfold elemNum
+  simp only [rnValue_isAddress, rnValue_int?, rnValue_isAddrExpr, addrOf_rn, addrOffset_rn]
+  split
+  · cases r.int? with
+    | none => rfl
+    | some j => dsimp only; cases addrOf ss j <;> rfl
+  · split
+    · cases ho : addrOffset ss r with
+      | ok x => simp only [Outcome.map_ok, addrOffset_ok_rn ho]
+      | _ => rfl
+    · rfl
+
+theorem elemRender_rn (w : Nat) (o : Outcome Value) : elemRender w (o.map (rnValue ρ)) = elemRender w o := by
+  cases o with
+  | ok v => cases v <;> rfl
+  | _ => rfl
+
+/-- (4) the element-level lemma: the evaluation of a list element commutes with the renaming -/
+theorem evalElem_rn (N : List Str) (hinj : InjOn ρ.sym N) (t : SymTab) (ht : TabIn N t) (ss : List Stmt) (w : Nat)
+    {x x' : Str} (hc : create 4 x' false false true = (create 4 x false false true).map (rnValue ρ))
+    (hN : ∀ v, create 4 x false false true = .ok v → ∀ y ∈ valSyms v, y ∈ N) :
+    evalElem (ss.map (rnStmt ρ)) (rnTab ρ t) w x' = evalElem ss t w x := by
+  rw [evalElem_eq, evalElem_eq, hc]
+  cases hv : create 4 x false false true with
+  | error e => rfl
+  | ok v =>
+    simp only [Except.map]
+    rw [resolve_rn N hinj t ht v (hN v hv)]
+    cases v.resolve t with
+    | error e => rfl
+    | ok r =>
+      simp only [Except.map]
+      rw [elemNum_rn, elemRender_rn]
+
+theorem evalElem1_rn (N : List Str) (hinj : InjOn ρ.sym N) (t : SymTab) (ht : TabIn N t) (ss : List Stmt) (w : Nat)
+    {x x' : Str} (h : ElemRn ρ N w x x') (d : Str) :
+    evalElem1 (ss.map (rnStmt ρ)) (rnTab ρ t) w x' d = evalElem1 ss t w x d := by
+  unfold evalElem1
+  rw [h.1]
+  cases hp : pendingAt w x with
+  | false => rfl
+  | true =>
+    obtain ⟨hc, hN⟩ := h.2 hp
+    simp only [if_true]
+    exact evalElem_rn N hinj t ht ss w hc hN
+
+/-- two lists related element by element -/
+inductive All2 {α β : Type} (R : α → β → Prop) : List α → List β → Prop
+  | nil : All2 R [] []
+  | cons {a : α} {b : β} {l : List α} {l' : List β} : R a b → All2 R l l' → All2 R (a :: l) (b :: l')
+
+theorem All2.imp {α β : Type} {R S : α → β → Prop} (h : ∀ a b, R a b → S a b) : ∀ {l : List α} {l' : List β},
+    All2 R l l' → All2 S l l'
+  | _, _, .nil => .nil
+  | _, _, .cons hab ht => .cons (h _ _ hab) (All2.imp h ht)
+
+theorem evalElems_rn (N : List Str) (hinj : InjOn ρ.sym N) (t : SymTab) (ht : TabIn N t) (ss : List Stmt) (w : Nat) :
+    ∀ (xs xs' hs : List Str), All2 (ElemRn ρ N w) xs xs' →
+      evalElems (ss.map (rnStmt ρ)) (rnTab ρ t) w xs' hs = evalElems ss t w xs hs := by
+  intro xs xs' hs hf
+  induction hf generalizing hs with
+  | nil => rw [evalElems_nil_left, evalElems_nil_left]
+  | cons hx _ ih =>
+    cases hs with
+    | nil => rw [evalElems_nil_right, evalElems_nil_right]
+    | cons d ds => rw [evalElems_cons, evalElems_cons, evalElem1_rn N hinj t ht ss w hx d, ih ds]
+
+/-- the elements of the renamed list text are faithful renamings of the elements of the list text -/
+def ListRn (ρ : Ren) (N : List Str) (txt : Str) : Prop :=
+  All2 (fun x x' => ElemRn ρ N 2 x x' ∧ ElemRn ρ N 4 x x') (listElems txt) (listElems (ρ.txt txt))
+
+theorem forall2_self {α : Type} {R : α → α → Prop} : ∀ (l : List α), (∀ x ∈ l, R x x) → All2 R l l
+  | [], _ => .nil
+  | a :: l, h => .cons (h a (by simp)) (forall2_self l (fun x hx => h x (by simp [hx])))
+
+theorem forall2_map_right {α β : Type} {R : α → β → Prop} (f : α → β) : ∀ (l : List α), (∀ x ∈ l, R x (f x)) →
+    All2 R l (l.map f)
+  | [], _ => .nil
+  | a :: l, h => .cons (h a (by simp)) (forall2_map_right f l (fun x hx => h x (by simp [hx])))
+
+/-- a list of literals whose text is left alone -/
+theorem listRn_lit (N : List Str) {txt : Str} (h1 : litElems txt = true) (h2 : ρ.txt txt = txt) : ListRn ρ N txt := by
+  unfold ListRn
+  rw [h2]
+  exact forall2_self _ (fun x hx => ⟨elemRn_refl N (litElems_at h1 (.inl rfl) x hx),
+    elemRn_refl N (litElems_at h1 (.inr rfl) x hx)⟩)
+
+theorem evalList1_rn (N : List Str) (hinj : InjOn ρ.sym N) (t : SymTab) (ht : TabIn N t) (ss : List Stmt) (s : Stmt)
+    (h : isList s.pkg.additional = true → ListRn ρ N s.operand.text) :
     evalList1 (rnTab ρ t) (ss.map (rnStmt ρ)) (rnStmt ρ s) = (evalList1 t ss s).map (rnStmt ρ) := by
   unfold evalList1
   have e : (rnStmt ρ s).pkg.additional = rnValue ρ s.pkg.additional := rfl
@@ -468,42 +585,40 @@ theorem evalList1_rn (t : SymTab) (ss : List Stmt) (s : Stmt)
   rw [e, e2]
   cases ha : s.pkg.additional with
   | multiByte hs =>
-    obtain ⟨h1, h2⟩ := h (by rw [ha]; rfl)
+    have h1 := h (by rw [ha]; rfl)
     simp only [rnValue]
-    rw [h2, evalElems_lit ss _ t _ 2 _ hs (litElems_at h1 (.inl rfl))]
+    rw [evalElems_rn N hinj t ht ss 2 _ _ hs (All2.imp (fun _ _ h => h.1) h1)]
     cases evalElems ss t 2 (listElems s.operand.text) hs <;> rfl
   | multiWord hs =>
-    obtain ⟨h1, h2⟩ := h (by rw [ha]; rfl)
+    have h1 := h (by rw [ha]; rfl)
     simp only [rnValue]
-    rw [h2, evalElems_lit ss _ t _ 4 _ hs (litElems_at h1 (.inr rfl))]
+    rw [evalElems_rn N hinj t ht ss 4 _ _ hs (All2.imp (fun _ _ h => h.2) h1)]
     cases evalElems ss t 4 (listElems s.operand.text) hs <;> rfl
   | _ => first | rfl | (simp only [rnValue]; rfl)
 
-theorem evalLists_rn (t : SymTab) (ss : List Stmt) : ∀ (l : List Stmt),
-    (∀ s ∈ l, isList s.pkg.additional = true →
-      litElems s.operand.text = true ∧ ρ.txt s.operand.text = s.operand.text) →
+theorem evalLists_rn (N : List Str) (hinj : InjOn ρ.sym N) (t : SymTab) (ht : TabIn N t) (ss : List Stmt) :
+    ∀ (l : List Stmt), (∀ s ∈ l, isList s.pkg.additional = true → ListRn ρ N s.operand.text) →
     evalLists (rnTab ρ t) (ss.map (rnStmt ρ)) (l.map (rnStmt ρ)) = (evalLists t ss l).map (List.map (rnStmt ρ)) := by
   intro l
   induction l with
   | nil => intro _; rfl
   | cons s rest ih =>
     intro hl
-    rw [List.map_cons, evalLists_cons, evalLists_cons, evalList1_rn t ss s (hl s (by simp)),
+    rw [List.map_cons, evalLists_cons, evalLists_cons, evalList1_rn N hinj t ht ss s (hl s (by simp)),
       ih (fun x hx => hl x (by simp [hx]))]
     cases evalList1 t ss s with
     | ok s' => cases evalLists t ss rest <;> rfl
     | _ => rfl
 
-theorem fixAllL_rn (t : SymTab) (ss4 : List Stmt)
-    (h : ∀ x, fixAll ss4 0 ss4 = .ok x → ∀ s ∈ x, isList s.pkg.additional = true →
-      litElems s.operand.text = true ∧ ρ.txt s.operand.text = s.operand.text) :
+theorem fixAllL_rn (N : List Str) (hinj : InjOn ρ.sym N) (t : SymTab) (ht : TabIn N t) (ss4 : List Stmt)
+    (h : ∀ x, fixAll ss4 0 ss4 = .ok x → ∀ s ∈ x, isList s.pkg.additional = true → ListRn ρ N s.operand.text) :
     fixAllL (rnTab ρ t) (ss4.map (rnStmt ρ)) = (fixAllL t ss4).map (List.map (rnStmt ρ)) := by
   unfold fixAllL
   rw [fixAll_rn]
   cases hf : fixAll ss4 0 ss4 with
   | ok x =>
     simp only [Outcome.map_ok]
-    exact evalLists_rn t x x (h x hf)
+    exact evalLists_rn N hinj t ht x x (h x hf)
   | _ => rfl
 
 /-- the statements as they reach the evaluation of the FCB / FDB lists: the stages of `back` up to and including
@@ -525,13 +640,17 @@ def preLists (ss : List Stmt) : Option (List Stmt) :=
            | _ => none)
         | _ => none
 
-/-- the side condition of C18-R2 about FCB / FDB lists (batch 8): a statement that reaches the list pass with a byte /
-word list as its operand field has literal elements only (no symbol, no expression: `litElems`), and the renaming of
-operand texts leaves its text alone. (`renameStmt` renames symbols in operand VALUES; the elements of a list are
-evaluated from the operand TEXT.) -/
-def ListsOK (ρ : Ren) (ss : List Stmt) : Prop :=
-  ∀ x, preLists ss = some x → ∀ s ∈ x, isList s.pkg.additional = true →
-    litElems s.operand.text = true ∧ ρ.txt s.operand.text = s.operand.text
+/-- the side condition of C18-R2 about FCB / FDB lists (batch 8, generalised): for a statement that reaches the list pass
+with a byte / word list as its operand field, the elements of the renamed operand text are faithful renamings
+(`ListRn`, `ElemRn`) of the elements of its operand text, with their symbols in `N`. -/
+def ListsOK (ρ : Ren) (N : List Str) (ss : List Stmt) : Prop :=
+  ∀ x, preLists ss = some x → ∀ s ∈ x, isList s.pkg.additional = true → ListRn ρ N s.operand.text
+
+/-- the condition of the first version of the batch: lists of literals, texts left alone -/
+theorem listsOK_of_lit (N : List Str) {ss : List Stmt}
+    (h : ∀ x, preLists ss = some x → ∀ s ∈ x, isList s.pkg.additional = true →
+      litElems s.operand.text = true ∧ ρ.txt s.operand.text = s.operand.text) : ListsOK ρ N ss :=
+  fun x hx s hs hl => listRn_lit N (h x hx s hs hl).1 (h x hx s hs hl).2
 
 
 /-! ### the symbol table after layout -/
@@ -645,7 +764,7 @@ theorem labels_kept {t : SymTab} {n : Nat} {ss ss1 ss2 ss3 : List Stmt} (h1 : re
   rw [e3, e2, e1]
 
 theorem back_rn (ss : List Stmt) (N : List Str) (hinj : InjOn ρ.sym N)
-    (hN : ∀ s ∈ ss, ∀ x ∈ stmtNames s, x ∈ N) (hok : ∀ s ∈ ss, StmtOK ρ s) (hlists : ListsOK ρ ss) :
+    (hN : ∀ s ∈ ss, ∀ x ∈ stmtNames s, x ∈ N) (hok : ∀ s ∈ ss, StmtOK ρ s) (hlists : ListsOK ρ N ss) :
     back (ss.map (renameStmt ρ)) = (back ss).map (rnAssembly ρ) := by
   unfold back
   have hb := buildSymTab_rn (R := ρ) N hinj ss 0 []
@@ -682,7 +801,7 @@ theorem back_rn (ss : List Stmt) (N : List Str) (hinj : InjOn ρ.sym N)
             cases ha : assignAddrs ss3 0 with
             | ok ss4 =>
               simp only [Outcome.map_ok]
-              rw [fixAllL_rn t ss4 (fun x hx => hlists x (by unfold preLists; simp only [hbt, hr, htr, hp, ha, hx]))]
+              rw [fixAllL_rn N hinj t ht ss4 (fun x hx => hlists x (by unfold preLists; simp only [hbt, hr, htr, hp, ha, hx]))]
               cases hf : fixAllL t ss4 with
               | ok ss5 =>
                 simp only [Outcome.map_ok]
